@@ -99,13 +99,13 @@ pub struct UnsafeProtocolChainConfig {
 
 impl UnsafeProtocolChainConfig {
     pub fn validate(&self) -> Result<ProtocolChainConfig, ContractError> {
-        let channel_id_correct = self.ibc_channel_id.starts_with("channel-")
-            && self
-                .ibc_channel_id
-                .strip_prefix("channel-")
-                .unwrap()
-                .parse::<u64>()
-                .is_ok();
+        // `channel-<n>`: decimal digits only (u64::from_str alone would also accept a leading `+`)
+        let channel_id_correct = self
+            .ibc_channel_id
+            .strip_prefix("channel-")
+            .map_or(false, |n| {
+                n.bytes().all(|b| b.is_ascii_digit()) && n.parse::<u64>().is_ok()
+            });
         if !channel_id_correct {
             return Err(ContractError::IbcChannelConfigWrong {});
         }
